@@ -273,11 +273,82 @@ def judge_groups(integ: str, data: bytes, groups: list):
     return None
 
 
+def check_dataset_graphs_writing(ctx, rng):
+    """rdflib Datasets written with logical type GRAPHS / SUBJECT_GRAPHS: the dataset's graphs are unpacked and each
+    non-empty graph travels in exactly one frame (documented behaviour of triples_stream_frames)."""
+    v = gen.Vocab(rng, "rdf11", n_ns=1, n_local=3)
+    v.p_sepless = 0.0
+    datasets = []
+    for _d in range(rng.randint(1, 3)):
+        quads = []
+        for gi in range(rng.randint(2, 6)):
+            g = ("iri", f"http://ex.org/graph/{gi}") if rng.random() < .8 else ("bnode", f"g{gi}")
+            for _t in range(rng.choice([1, 1, 1, 2, 3])):      # many single-triple graphs re-using known vocabulary
+                quads.append((("iri", "http://ex.org/ns/s"), ("iri", "http://ex.org/ns/p"),
+                              rng.choice([("lit", "x", None, None), ("lit", "y", None, None), v.iri()]), g))
+        datasets.append(quads)
+    logical = rng.choice([3, 13])
+    cfg = {"physical": 1, "preset": (64, 8, 4), "logical": logical, "frame_size": rng.choice([1, 3, 250]),
+           "delimited": True, "generalized": False, "rdf_star": False}
+    options = pj.make_options(cfg)
+    stores = [pj.rdflib_store_of(q, dataset=True) for q in datasets]
+    # expected frame contents: the triples of each non-empty graph (order of graphs: whatever the store yields)
+    expected = []
+    for st in stores:
+        for g in st.graphs():
+            trip = sorted(T.norm_stmt(tuple(T.from_rdflib(t) for t in tr)) for tr in g)
+            if trip:
+                expected.append(trip)
+    out = io.BytesIO()
+    via = rng.choice(["frames", "file", "serialize"])
+    try:
+        if via == "file":
+            rser.grouped_stream_to_file((s for s in stores), out, options=options)
+        elif via == "frames":
+            pj.write_frames(rser.grouped_stream_to_frames((s for s in stores), options=options), out, True)
+        else:
+            stores = stores[:1]
+            expected = [sorted(T.norm_stmt(tuple(T.from_rdflib(t) for t in tr)) for tr in g) for g in stores[0].graphs() if len(g)]
+            stores[0].serialize(out, format="jelly", options=options)
+    except Exception as e:  # noqa: BLE001
+        ctx.violation({"clause": "group-writing-raised", "summary": f"rdflib Dataset with logical {logical}: {type(e).__name__}: {e}",
+                       "integration": "rdflib", "logical": logical, "cfg": cfg, "via": via, "datasets": T.to_json(datasets)})
+        return
+    ctx.observe("group-sequences-written")
+    ctx.observe("dataset-as-graphs-written")
+    data = out.getvalue()
+    w = None
+    try:
+        ref = refdec.decode(wire.dec_stream(data, True))
+        if ref.violation is not None:
+            w = {"clause": "written-bytes-invalid", "summary": str(ref.violation)}
+        else:
+            frames = [sorted(T.norm_event(e)[1] for e in evs if e[0] == "stmt") for evs in ref.per_frame]
+            carrying = [f for f in frames if f]
+            if len(carrying) != len(expected):
+                w = {"clause": "frame-count", "summary": f"{len(carrying)} frames carry statements for {len(expected)} non-empty graphs "
+                                                         f"of {len(stores)} dataset(s) (frame sizes {[len(f) for f in frames]}, graph sizes {[len(x) for x in expected]})"}
+            elif sorted(carrying) != sorted(expected):
+                # rdflib's Dataset.graphs() yields a different order on every call, even on the same object:
+                # the frames are compared with the graphs as a multiset
+                w = {"clause": "frame-content", "summary": "the frames do not hold exactly one graph of the dataset(s) each"}
+    except wire.WireError as e:
+        w = {"clause": "written-bytes-malformed", "summary": str(e)}
+    if w:
+        w.update({"integration": "rdflib", "logical": logical, "cfg": cfg, "via": via, "datasets": T.to_json(datasets), "bytes": data.hex()})
+        ctx.violation(w)
+    ctx.case(("ds-graphs", logical, via, datasets), len(expected) >= 2,
+             sample={"part": "dataset-as-graphs", "logical": logical, "via": via, "graph_sizes": [len(x) for x in expected]})
+
+
 def run_shard(ctx):
     i = 0
     while not ctx.out_of_time():
         rng = ctx.rng(i)
         i += 1
+        if i % 12 == 5:
+            check_dataset_graphs_writing(ctx, rng)
+            continue
         if i % 3 == 0:
             check_group_writing(ctx, rng)
             continue
@@ -289,6 +360,8 @@ def run_shard(ctx):
 
 
 def replay(w: dict):
+    if "datasets" in w:
+        return {"clause": w["clause"], "summary": "dataset-as-graphs witnesses are reproduced by re-running ./check C07 with the same VERIF_SEED"}
     if "groups" in w:
         groups = [list(g) for g in T.from_json(w["groups"])]
         integ, cfg = w["integration"], w["cfg"]
